@@ -57,8 +57,8 @@ CHECKS = {
  "C16": ("exploration", CONC + "in-process opener tasks plus one real child process driven in lock-step; Open/Close outcomes checked with porcupine against a single-holder lock model; a janitor damages/repairs an older file so Opens fail after taking the lock",
          "Interleavings of Open/Close/failing Open by several goroutines and another process; rejected Opens leave journal / directory hash unchanged; directory openable afterwards.",
          TB + " flock(2) semantics equal within and across processes; GC off during a run.", "DESIGN.md 4 C16"),
- "C17": ("exploration", SEQ + "Stat recomputed at every step by scanning the files with the package's own reader; size-limit rule per file",
-         "Histories with overwrites, deletes, batches, rotations, merges, restarts.",
+ "C17": ("exploration", SEQ + "Stat recomputed at every step by scanning the files with the package's own reader; size-limit rule per file; 15% of the runs: concurrent clients under the seeded scheduler, Stat recomputed at quiescence and after the restart",
+         "Histories with overwrites, deletes, batches, rotations, merges, restarts; interleavings of racing writers, deleters, batches and a merge.",
          TB, "DESIGN.md 4 C17"),
  "C18": ("exploration", SEQ + "after every successful Merge the hint file is decoded and compared entry by entry with a scan of the merged files; hint-path Open vs scan-path Open on copies",
          "Merges x configurations x both I/O types x multi-file outputs.",
